@@ -268,6 +268,11 @@ func (db *Database) SearchUniversal(query string, options SearchOptions) []Searc
 	if db.uIndex == nil || db.uIndex.N != len(db.Commands) {
 		// (Re)build lazily if needed
 		db.BuildUniversalIndex()
+		// A re-ranker built for the previous command list is stale as well
+		// (its document ids and command addresses no longer match).
+		if db.tfidf != nil || db.cmdIndex != nil {
+			db.buildTFIDFSearcher()
+		}
 	}
 
 	if options.Limit <= 0 {
